@@ -101,7 +101,7 @@ pub fn run(ctx: &Ctx) -> i32 {
             }
             let maze = k >= per_shard;
             if maze {
-                let sh = crate::shapes::ecall_maze_family(&mut rng);
+                let sh = if k % 2 == 0 { crate::shapes::ecall_maze_family(&mut rng) } else { crate::shapes::linking_jump_cycle_family(&mut rng) };
                 c.g.prog = sh.prog;
                 c.g.funcs.clear();
                 c.printed = crate::print::print(&c.g.prog, &Style::plain(), &mut Rng::new(1));
@@ -109,7 +109,7 @@ pub fn run(ctx: &Ctx) -> i32 {
             let special = k % 4 == 1 || maze;
             let mutant = k % 4 == 3 && !maze;
             acc.evaluations += 1;
-            let shape_name = if maze { "maze-of-ecalls" } else if special { "trap-handler-or-shared-tails" } else if mutant { "semantic-mutant" } else { match shape {
+            let shape_name = if maze { if k % 2 == 0 { "maze-of-ecalls" } else { "linking-jump-cycle" } } else if special { "trap-handler-or-shared-tails" } else if mutant { "semantic-mutant" } else { match shape {
                 0 => "jump-into-function",
                 1 => "fall-through-into-function",
                 2 | 3 => "conforming",
